@@ -1124,13 +1124,23 @@ class Inliner:
                     lists.append(sub)
             if isinstance(x, ast.Try):
                 lists += [h.body for h in x.handlers]
+        self._fuse_single_use_generators(fn, lists)
         for lst in lists:
             i = 0
             while i < len(lst):
                 st = lst[i]
                 i += 1
                 v = getattr(st, "value", None) if isinstance(st, (ast.Assign, ast.AnnAssign, ast.Return)) else None
-                if not (isinstance(v, (ast.ListComp, ast.SetComp)) and 1 <= len(v.generators) <= 3 and not any(g_.is_async for g_ in v.generators)):
+                sink = None
+                if isinstance(st, ast.Expr) and isinstance(st.value, ast.Call) and isinstance(st.value.func, ast.Attribute) and st.value.func.attr in ("extend", "update") \
+                        and isinstance(st.value.func.value, (ast.Name, ast.Attribute)) and len(st.value.args) == 1 and not st.value.keywords \
+                        and isinstance(st.value.args[0], (ast.ListComp, ast.SetComp, ast.GeneratorExp)):
+                    # `acc.extend(x for x in IT if new_pred(x))`: the sink is the collection itself
+                    v = st.value.args[0]
+                    sink = (st.value.func.value, "append" if st.value.func.attr == "extend" else "add")
+                    if not (1 <= len(v.generators) <= 3 and not any(g_.is_async for g_ in v.generators)):
+                        continue
+                elif not (isinstance(v, (ast.ListComp, ast.SetComp)) and 1 <= len(v.generators) <= 3 and not any(g_.is_async for g_ in v.generators)):
                     continue
                 calls = [c for part in [v.elt] + [i_ for g_ in v.generators for i_ in g_.ifs] for c in ast.walk(part) if isinstance(c, ast.Call)]
                 hit = False
@@ -1145,6 +1155,18 @@ class Inliner:
                         if t is not None and t[1].is_gen:
                             hit = True
                 if not hit:
+                    continue
+                if sink is not None:
+                    app = ast.Expr(value=ast.Call(func=ast.Attribute(value=copy.deepcopy(sink[0]), attr=sink[1], ctx=ast.Load()), args=[v.elt], keywords=[]))
+                    body = [app]
+                    for g_ in reversed(v.generators):
+                        for cond in reversed(g_.ifs):
+                            body = [ast.If(test=cond, body=body, orelse=[])]
+                        body = [ast.For(target=g_.target, iter=g_.iter, body=body, orelse=[], type_comment=None)]
+                    ast.copy_location(body[0], st)
+                    ast.fix_missing_locations(body[0])
+                    lst[i - 1] = body[0]
+                    self.done.append("extend(comprehension with helper) -> loop")
                     continue
                 self._comp_tmp = getattr(self, "_comp_tmp", 0) + 1
                 tmp = f"_sv_comp{self._comp_tmp}"
@@ -1164,6 +1186,70 @@ class Inliner:
                 ast.fix_missing_locations(st)
                 lst[i - 1:i - 1] = [init, loop]
                 i += 2
+
+    def _fuse_single_use_generators(self, fn: ast.AST, lists) -> None:
+        """`it = (x for x in IT if c1); acc.extend(y for y in it if c2(y))` -> `acc.extend(y for y in IT if c1[y/x] if c2(y))`:
+        a local bound once to a generator expression whose element is its own variable, read once as the iterable of a
+        comprehension in the very next statement, is a filter stage of that comprehension."""
+        self._unfilter_for_loops(fn)
+        loads: Dict[str, int] = {}
+        stores: Dict[str, int] = {}
+        for x in ast.walk(fn):
+            if isinstance(x, ast.Name):
+                d = loads if isinstance(x.ctx, ast.Load) else stores
+                d[x.id] = d.get(x.id, 0) + 1
+        self._fuse_tail(fn, lists, loads, stores)
+
+    def _unfilter_for_loops(self, fn: ast.AST) -> None:
+        # `for x in (y for y in IT if c): body`  ->  `for x in IT: if c[x/y]: body`
+        for f in ast.walk(fn):
+            if isinstance(f, ast.For) and isinstance(f.iter, ast.GeneratorExp) and len(f.iter.generators) == 1 and not f.iter.generators[0].is_async and not f.orelse \
+                    and isinstance(f.target, ast.Name) and isinstance(f.iter.elt, ast.Name) and isinstance(f.iter.generators[0].target, ast.Name) \
+                    and f.iter.elt.id == f.iter.generators[0].target.id and f.iter.generators[0].ifs:
+                g0 = f.iter.generators[0]
+                conds = [copy.deepcopy(c) for c in g0.ifs]
+                if g0.target.id != f.target.id:
+                    ren = _Renamer({g0.target.id: ast.Name(id=f.target.id, ctx=ast.Load())})
+                    conds = [ren.visit(c) for c in conds]
+                test = conds[0] if len(conds) == 1 else ast.BoolOp(op=ast.And(), values=conds)
+                inner = ast.If(test=test, body=f.body, orelse=[])
+                ast.copy_location(inner, f)
+                f.iter = g0.iter
+                f.body = [inner]
+                ast.fix_missing_locations(f)
+                self.done.append("for over a filtering generator expression -> loop with a guard")
+
+    def _fuse_tail(self, fn: ast.AST, lists, loads, stores) -> None:
+        for lst in lists:
+            i = 0
+            while i + 1 < len(lst):
+                st, nxt = lst[i], lst[i + 1]
+                i += 1
+                if not (isinstance(st, ast.Assign) and len(st.targets) == 1 and isinstance(st.targets[0], ast.Name) and isinstance(st.value, ast.GeneratorExp)):
+                    continue
+                nm = st.targets[0].id
+                ge = st.value
+                if loads.get(nm, 0) != 1 or stores.get(nm, 0) != 1 or len(ge.generators) != 1 or ge.generators[0].is_async:
+                    continue
+                g0 = ge.generators[0]
+                if not (isinstance(g0.target, ast.Name) and isinstance(ge.elt, ast.Name) and ge.elt.id == g0.target.id):
+                    continue
+                user = None
+                for c in ast.walk(nxt):
+                    if isinstance(c, ast.comprehension) and isinstance(c.iter, ast.Name) and c.iter.id == nm and isinstance(c.target, ast.Name) and not c.is_async:
+                        user = c
+                if user is None:
+                    continue
+                ren = _Renamer({g0.target.id: ast.Name(id=user.target.id, ctx=ast.Load())}) if g0.target.id != user.target.id else None
+                conds = [copy.deepcopy(c) for c in g0.ifs]
+                if ren is not None:
+                    conds = [ren.visit(c) for c in conds]
+                user.iter = g0.iter
+                user.ifs = conds + user.ifs
+                ast.fix_missing_locations(nxt)
+                lst.pop(i - 1)
+                i -= 1
+                self.done.append(f"single-use generator {nm} fused into its consumer")
 
     def _name_fresh_receivers(self, fn: ast.AST) -> None:
         """`return _Worker(a, b).run(c)`  ->  `_sv_objN = _Worker(a, b); return _sv_objN.run(c)` for new private classes:
@@ -1364,6 +1450,8 @@ class Inliner:
                         if isinstance(x, ast.FunctionDef) and f"{q}.<locals>.{x.name}" not in self.baseline and x.name not in self.unknown and x.name not in value_uses and not x.decorator_list:
                             self.unknown[x.name] = _Info(x, None)
                             added.append(x.name)
+                    if added:
+                        self._unroll_helper_comprehensions(inf.node, inf.cls)
                 inf.node.body = [self._subst_expr_helpers(st, inf.cls, q) for st in inf.node.body]
                 inf.node.body = self._rewrite_body(inf.node.body, inf.cls, q)
                 # nested closures of this function
@@ -1374,6 +1462,8 @@ class Inliner:
                     self._nested_done.setdefault(nm, self.unknown.pop(nm))
             if len(self.done) == before:
                 break
+        for q, inf in list(self.funcs.items()):
+            self._unfilter_for_loops(inf.node)
         self._drop_dead_helpers()
         return self.done
 
